@@ -18,7 +18,7 @@ pub const FLOORS: &[&str] = &[
     "origin:default", "origin:other", "origin:ge8000", "image_straddles_8000", "break_or_orig_interleaved",
     "assembly_after_memory_was_modified", "label_like_register_with_digits", "break_table_row", "break_table_row_truncated",
     "break_table_row_multibyte", "break_table_row_without_statement", "image_crosses_fe00", "label_shaped_like_number_or_register",
-    "eval_of_a_line_with_its_label_in_front", "stmt:continued_on_the_next_line", "first_statement_at_byte_zero_without_operands", "label_in_front_of_break", "label_offset_beyond_16_bits_refused",
+    "eval_of_a_line_with_its_label_in_front", "stmt:continued_on_the_next_line", "first_statement_at_byte_zero_without_operands", "label_in_front_of_break", "label_offset_beyond_16_bits_refused", "label_32768_words_behind_the_statement_asked_for",
 ];
 
 pub fn run(cfg: &Cfg, col: &mut Collector) {
@@ -110,6 +110,22 @@ fn one_case(seed: u64, i: u64) -> CaseOut {
             }
         }
     }
+    // a program of more than 32768 words with a label at its far end: `far_-32768` (the most negative offset
+    // there is) names a statement near the start, like any other label and offset
+    let wide = i % 37 == 19 && !cfg!(miri);
+    if wide {
+        if let Verdict::Accept(pre) = encode(&p) {
+            let n0 = pre.words.len();
+            if n0 > 0 && n0 < 0x4000 {
+                p.items.retain(|it| !matches!(it, Item::Orig(_) | Item::End));
+                p.items.insert(0, Item::Orig(*rng.pick(&[0x0200, 0x1000, 0x3000, 0x7000])));
+                p.items.push(Item::Stmt { label: None, stmt: Stmt::Blkw((0x8000 - n0) as i32) });
+                p.items.push(Item::Stmt { label: Some("far_".to_string()), stmt: Stmt::AddI(1, 1, 1) });
+                p.items.push(Item::End);
+                out.class("label_32768_words_behind_the_statement_asked_for");
+            }
+        }
+    }
     let img = match encode(&p) {
         Verdict::Accept(img) => img,
         _ => {
@@ -155,6 +171,9 @@ fn one_case(seed: u64, i: u64) -> CaseOut {
     }
     let mut qs: Vec<Q> = Vec::new();
     for k in -2..n + 2 {
+        if n > 4000 && k > 40 && k < n - 3 {
+            continue;
+        }
         let a = orig as i32 + k;
         if (0..0x10000).contains(&a) {
             qs.push(Q::Asm(a as u16));
@@ -188,6 +207,19 @@ fn one_case(seed: u64, i: u64) -> CaseOut {
                     }
                 }
                 _ => out.class("label_token_is_not_a_label_to_the_debugger"),
+            }
+        }
+    }
+    if let Some((_, idx)) = img.labels.iter().find(|(nm, idx)| nm == "far_" && *idx == 0x8000) {
+        let addr = orig + *idx as u16;
+        for (is_print, token) in [(false, "far_-32768"), (true, "far_-x8000"), (false, "far_-0x7FFF"), (true, "far_-32767")] {
+            let k = if token.ends_with("7FFF") || token.ends_with("32767") { -0x7FFF } else { -0x8000 };
+            if matches!(crate::refcmd::memory_location(token), Ok(crate::refcmd::RLoc::Label(nm, o)) if nm == "far_" && o as i32 == k) {
+                if is_print {
+                    qs.push(Q::Print(token.to_string(), addr, k));
+                } else {
+                    qs.push(Q::Goto(token.to_string(), addr, k));
+                }
             }
         }
     }
